@@ -28,10 +28,12 @@ package cmd
 //@   property C10
 //@   requires packageInfo != nil
 //@   ensures without_overrides_the_manifest_is_not_copied: old(len(configArgs)) == 0 ==> !called("github.com/knadh/koanf/v2.(*Koanf).Load")
+//@   ensures settings_hold_after_overrides: result == nil && old(len(configArgs)) > 0 ==> packageInfo.Namespace != "" && (packageInfo.Python != nil ==> packageInfo.Python.OutputDir != "") && (packageInfo.Cpp != nil ==> packageInfo.Cpp.SourcesOutputDir != "")
 //@   ensures without_overrides_nothing_fails: old(len(configArgs)) == 0 ==> result == nil
 //@   requires manifest_graph_is_acyclic: forall k in 0..len(packageInfo.Versions) :: packageInfo.Versions[k].Package != packageInfo
 
 // ---- C09 / C11: errors of every nested parse / validate / evolution step propagate -----------------------
+//@ observe-args cpp/common.TypeIdentifierName
 //@ func validatePackage
 //@   property C09,C11
 //@   invariant 0: !errSeen(parseAndFlattenNamespaces) && !errSeen(dsl.Validate) && called(dsl.Validate) && called(parseAndFlattenNamespaces)
@@ -49,6 +51,9 @@ package cmd
 //@   invariant 1: forall k in 0..rangeindex+1 :: labels[k] != version.Label
 // an iteration that is completed (no error returned) has found the label of its version different from the labels
 // of all earlier versions: a manifest with a repeated label cannot pass the loop
+// C08: the labels are the members of the generated C++ `enum class Version`: with a C++ target configured, an iteration
+// that completes has a label that the C++ generator would not have to escape (it is not a C++ reserved word)
+//@   iteration 0: a_reserved_word_is_not_a_version_label: packageInfo.Cpp != nil ==> called("cpp/common.TypeIdentifierName") && lastArg("cpp/common.TypeIdentifierName", 0) == version.Label && lastResult("cpp/common.TypeIdentifierName") == version.Label
 //@   iteration 0: repeated_version_label_does_not_pass: forall b in 0..rangeindex+1 :: packageInfo.Versions[b].Label != version.Label
 //@ immutable packaging.Version.Label
 //@ immutable-family E#*packaging.Version
